@@ -1,8 +1,9 @@
 """C17 — Syntax and tracebacks show the source line for line under the right numbers.
 
-Correspondence: Lean model (Model/Syntax.lean) vs rich.syntax.Syntax rendered through a real Console
-(`console.render(Syntax(...), options)`), `Syntax.highlight`, `_numbers_column_width`, the Text helpers the
-code path goes through, and the Syntax that `Traceback._render_stack` builds for a frame.  The real Pygments
+Correspondence: Lean model (Model/Syntax.lean; word-wrapped and segment-cropped rows: Model/SyntaxWrap.lean) vs
+rich.syntax.Syntax rendered through a real Console (`console.render(Syntax(...), options)`), `Syntax.highlight` (characters
+and token style ids), `_numbers_column_width`, `__rich_measure__`, the Text helpers the code path goes through, the Syntax
+that `Traceback._render_stack` builds for a frame, the codes its per-call file cache hands out, and `_render_syntax_error`.  The real Pygments
 token stream is an INPUT of the model; the lexer contract is evaluated per case.
 
 Direct evaluation (3d): the executable statements of the theorems in Props/C17.lean on rich's own output,
@@ -23,14 +24,14 @@ from core import enc_bool, enc_opt, enc_str, enc_str_list
 
 PROPERTY = "C17"
 
-# CODE VARIANT FLAGS  (value = what /repo does now: both defects are repaired; 1 = rich 9.10.0 as found; see Model/Syntax.lean)
-# (the environment overrides exist only to run against another checkout: VERIF_REPO=<worktree> VERIF_C17_STRIPNL=1 VERIF_C17_SKIP_RAISES=1)
+# CODE VARIANT FLAGS  (value = what /repo does now: all three defects are repaired; 1 = rich 9.10.0 as found; see Model/Syntax.lean)
+# (the environment overrides exist only to run against another checkout: VERIF_REPO=<worktree> VERIF_C17_STRIPNL=1 VERIF_C17_SKIP_RAISES=1 VERIF_C17_RANGE_POP=1)
 try:  # the variant flags of the Text / Wrap models (C05/C02), whose `Text.wrap` model folds the word-wrapped lines here
     from props.c02 import FLAGS as WRAP_FLAGS
 except Exception:  # pragma: no cover
     WRAP_FLAGS = "00000000"
 STRIPNL = int(os.environ.get("VERIF_C17_STRIPNL", "0"))          # 1: get_lexer_by_name(name) keeps Pygments' stripnl=True; 0: repaired (stripnl=False; fix 92fb879)
-RANGE_POP = int(os.environ.get("VERIF_C17_RANGE_POP", "0"))      # 1: `text.split("\n")` / guides `.split("\n")`: a blank line that ends the range is lost, an empty selection with guides shows a row; 0: repaired
+RANGE_POP = int(os.environ.get("VERIF_C17_RANGE_POP", "0"))      # 1: `text.split("\n")` / guides `.split("\n")`: a blank line that ends the range is lost, an empty selection with guides shows a row; 0: repaired (fix bc6c38f)
 SKIP_RAISES = int(os.environ.get("VERIF_C17_SKIP_RAISES", "0"))  # 1: bare next(tokens) in tokens_to_spans -> RuntimeError past the end; 0: repaired (break; fix 1d638e8)
 
 GUIDE = "│"
@@ -1477,7 +1478,7 @@ def run(ctx):
     ctx.assumptions += [
         "the Pygments lexer is a parameter of the model; contract: concatenated token texts = Pygments' documented preprocessing "
         "(BOM removal, \\r\\n and \\r -> \\n, stripnl, ensurenl) of the tab-expanded code; evaluated on every case",
-        "styles/themes never change characters: the model has no styles; `pad` (= background not transparent) is computed from the theme name",
+        "styles/themes never change characters: the row model has no styles (token style ids are modelled up to Syntax.highlight, see the last item); `pad` (= background not transparent) is computed from the theme name",
         "cell widths come from C13's model (generated table); word-wrapped lines are folded by C02/C05's Text.wrap model (imported read-only, "
         "its variant flags taken from props.c02); `unmodelled` is left only for a line cropped through a zero-width character whose spans "
         "were shifted by control-character stripping, or at code_width < 0",
@@ -1494,8 +1495,8 @@ def run(ctx):
     traceback_cases(ctx, rng)
     ctx.rule = (
         "helpers: every string <= 5/6 over small alphabets (expandtabs, preprocessing, split, remove_suffix, highlight x all ranges, "
-        "indent guides on line lists, slices); rendering: every source <= %d over %r x {python, unknown lexer} x 7 range shapes "
-        "(none, whole, shifted, last line, just past the end, beyond, straddling the start) + un-numbered + indent-guide variants; "
+        "indent guides on line lists, slices); rendering: every source <= %d over %r x {python, unknown lexer} x 10 range shapes "
+        "(none, whole, shifted, last line, just past the end, beyond, straddling the start, all but the last line, (2,2), (1,2)) + un-numbered + indent-guide variants; "
         "seeded random sources from per-lexer line pools (leading/trailing/interior blank lines, tabs, wide and zero-width characters, "
         "CRLF, BOM, control characters, no final newline, empty) x 5 lexers x line_numbers x start_line (digit boundaries) x 8 range shapes x "
         "highlight_lines x word_wrap x code_width x tab_size x indent_guides x themes x background x widths x no_wrap/legacy/ascii; gutter series; "
@@ -1539,8 +1540,8 @@ MANIFEST = {
     "`tokens concatenate to Pygments' preprocessing of the code`: highlighting_keeps_characters; highlight_styles_follow_tokens (every character "
     "carries the style id of the token it came from, lines before a range start unstyled); range_selects_clipped (with a range the rows are "
     "EXACTLY source lines a..b clipped to the lines that exist, blank lines that end the range included, numbered from start_line+max(0,a-1)); "
-    "lines_are_source_lines / plain_lines_are_source_lines (without a range all source lines, at most ONE empty line at the very end of the "
-    "source missing); rows_are_numbered_selection; numbers_are_line_numbers; gutter_wide_enough; fitted_line_is_line; "
+    "lines_are_source_lines (numbered, without a range: all source lines, at most ONE empty line at the very end of the source missing) / "
+    "plain_lines_are_source_lines (un-numbered, without a range: exactly the source lines); rows_are_numbered_selection; numbers_are_line_numbers; gutter_wide_enough; fitted_line_is_line; "
     "measure_maximum_fits_without_numbers + measure_maximum_one_short_with_numbers (the C09 clause for Syntax: holds without line numbers, fails "
     "by one cell with line numbers and an explicit code_width — witness); guides_only_overdraw_indent (as many lines out as in); "
     "traceback_marks_failing_line (exactly one marked row, numbered lineno, showing line lineno, for every extra_lines / leading blank lines / "
@@ -1548,7 +1549,7 @@ MANIFEST = {
     "they are when it is rendered); render_pure / render_pure_rows (any number of renders of ONE Syntax object answer what a fresh one "
     "answers; witness cached_text_would_decay: a Text remembered on the instance and cropped in place loses a range-ending blank line from "
     "the second render on). Proved for the repaired variant; `old_*` witnesses (decide) for the three defects. Tie: every run renders "
-    "~30k real Syntax objects (5 lexers incl. unknown, every option axis incl. dedent, bounded-exhaustive sources <=4 over "
+    "~37k real Syntax objects in the quick tier (5 lexers incl. unknown, every option axis incl. dedent, bounded-exhaustive sources <=4 over "
     "{a,space,newline,tab,wide} x 10 range shapes, every non-ASCII/control whitespace at line starts, zero-width characters at the crop edge) "
     "through a real Console and compares ALL rows character for character with the model fed the real Pygments token stream — word-wrapped "
     "lines folded row by row through C02's Text.wrap model, cropped lines segment by segment; token style ids of Syntax.highlight compared per "
@@ -1567,8 +1568,11 @@ MANIFEST = {
     "empty last line of the source, may be missing — the statement's 'blank lines at the very end aside'; (6) not part of C17's statement, "
     "observed only: __rich_measure__ reports a maximum one cell too small with line numbers + code_width; the SyntaxError offset marker counts "
     "characters, not cells (tabs / wide characters shift it). Trusted: Lean kernel; propext/Classical.choice/Quot.sound; the harness; C13's "
-    "cell-width model; C02/C05's Text.wrap model. Three genuine defects found: stripnl=True drops leading blank lines and the bare next() past "
-    "the end raises (both fixed in /repo), and a blank line that ends a line_range is lost / an empty selection under indent guides shows a "
-    "(possibly marked) row (pending_fixes/C17-range-drops-trailing-blank-line.diff).",
+    "cell-width model; C02/C05's Text.wrap model. Three genuine defects found, all fixed in /repo: stripnl=True drops leading blank lines "
+    "(fix 92fb879), the bare next() past the end raises (fix 1d638e8), and a blank line that ends a line_range is lost / an empty selection under "
+    "indent guides shows a (possibly marked) row (fix bc6c38f). Variant flags, all at the repaired value: STRIPNL = 0, SKIP_RAISES = 0, "
+    "RANGE_POP = 0 (1 = rich 9.10.0 as found; the Text/Wrap model flags are taken from props.c02). No known finding is open for C17: with "
+    "the flags at 0 the check prints no KNOWN-FINDING line (the slugs syntax-stripnl-drops-blank-lines, syntax-range-start-beyond-end-raises, "
+    "syntax-range-drops-trailing-blank-line, syntax-guides-empty-selection-shows-row and their traceback-* forms are attached only when a flag is 1).",
     "design_ref": "DESIGN.md section 7 (C17) and section 8 (F13)",
 }
